@@ -19,6 +19,7 @@ const (
 	sigChainStart     = "execution without explicit range does not start where the previous successful execution ended"
 	sigOverlap        = "successive windows overlap"
 	sigGap            = "successive windows leave a gap"
+	sigBookSplit      = "completed execution recorded although the cursor update of the same execution failed (history row and cursor advance are not atomic)"
 	sigInverted       = "completed execution records a window whose start is after its end (the cursor moved backwards)"
 	sigOverlapEarlier = "a completed window covers instants that an earlier completed window of the chain already covered"
 	sigNonExec        = "cursor or execution history changed by an operation that executes nothing (dry run, update, restart)"
@@ -158,7 +159,9 @@ func mod(a, b int64) int64 {
 	return m
 }
 
-func isExecOp(op string) bool { return op == opSched || op == opManual || op == opManualRange }
+func isExecOp(op string) bool {
+	return op == opSched || op == opManual || op == opManualRange || op == opSchedBookFault
+}
 
 // judge applies the oracle to what the monitors observed for one history.
 func judge(h *history, res *histResult) histReport {
@@ -180,6 +183,7 @@ func judge(h *history, res *histResult) histReport {
 
 	var execs []execRec
 	var opsKey strings.Builder
+	faulted := false // a bookkeeping fault was injected somewhere in this history
 	for _, o := range res.Obs {
 		var le, lc []logEntry
 		for _, e := range o.Log {
@@ -205,6 +209,33 @@ func judge(h *history, res *histResult) histReport {
 			continue
 		}
 		ok := o.Err == ""
+		if o.Op == opSchedBookFault {
+			// the cursor update of this execution was made to fail. History row and cursor
+			// advance come together or not at all; what the call answers and what it already
+			// wrote to the destination is counted, not judged here (the history is excluded
+			// from the output-row oracle below).
+			faulted = true
+			cnt("bookkeeping_faults_injected", 1)
+			completed := ""
+			for _, e := range le {
+				if e.A == "completed" {
+					completed = e.C
+				}
+			}
+			switch {
+			case completed != "" && !sameInstant(o.CursorPst, completed):
+				add(sigBookSplit, map[string]any{"step": o})
+			case completed == "" && ok:
+				cnt("bookkeeping_fault_answered_completed_with_nothing_recorded", 1)
+			case completed == "":
+				cnt("bookkeeping_fault_reported_as_error_nothing_recorded", 1)
+			}
+			if completed == "" && (len(lc) > 0 || o.CursorPre != o.CursorPst) {
+				add(sigFailAdvanced, map[string]any{"step": o})
+			}
+			opsKey.WriteString(o.Op + ";")
+			continue
+		}
 		switch {
 		case ok:
 			outcome = "ok"
@@ -354,6 +385,16 @@ func judge(h *history, res *histResult) histReport {
 		chainLen++
 	}
 
+	if faulted {
+		// an execution whose bookkeeping failed has already written output rows that no
+		// execution record explains; the row-level oracle cannot be applied to this history
+		cnt("histories_with_bookkeeping_fault_excluded_from_output_row_oracle", 1)
+		if chainLen >= 2 {
+			rep.Nontriv = append(rep.Nontriv, h.Variant+"|"+opsKey.String())
+		}
+		rep.Sample = map[string]any{"variant": h.Variant, "steps": len(h.Steps), "executions": execs}
+		return rep
+	}
 	// --- output rows ----------------------------------------------------------
 	var exp []expRow
 	for i, x := range execs {
